@@ -480,4 +480,41 @@ theorem isTarget_eq_tree (P : Params) (o : Obj) :
 theorem isTargetAtoms_valuationOf (P : Params) (o : Obj) : isTargetAtoms (valuationOf P o) = ofExcept (isTarget P o) :=
   isTarget_eq_tree P o
 
+/-! ## the readings the text leaves open (`Model/FilterTable.lean`) differ only on `openValuations` -/
+
+/-- kernel evaluation, independent of the generated table (cached by Lake): today's reading, written as head and tail,
+is the skeleton `isTargetTree` whose bridge is proved above -/
+theorem isTargetTreeR_today_check :
+    agree [] [aIsGt, aTargetsNone, aLabelIn] (isTargetTreeR today) isTargetTree PA.empty = true := by decide +kernel
+
+theorem eval_isTargetTreeR_today (v : Val) : eval (isTargetTreeR today) v = eval isTargetTree v :=
+  agree_sound isTargetTreeR_today_check v (by simp [consistent])
+
+/-- kernel evaluation (small trees): the head of each of the eight readings agrees with the head of today's reading under
+every valuation avoiding `openValuations` -/
+theorem readings_agree_check :
+    readings.all (fun r => agree openValuations openSticky (headR r) (headR today) PA.empty) = true := by
+  decide +kernel
+
+theorem readings_agree_outside_open {r : Reading} (hr : r ∈ readings) (v : Val)
+    (hv : consistent openValuations v = true) : eval (isTargetTreeR r) v = eval isTargetTree v := by
+  rw [← eval_isTargetTreeR_today]
+  unfold isTargetTreeR
+  rw [eval_bindT, eval_bindT, agree_sound (List.all_eq_true.1 readings_agree_check r hr) v hv]
+
+/-- under every reading an FP-labelled object passes -/
+theorem eval_isTargetTreeR_fp (r : Reading) (v : Val) (h : v.b aFp = true) : eval (isTargetTreeR r) v = .ret true := by
+  unfold isTargetTreeR headR
+  rw [eval_bindT, eval_askB, h]
+  rfl
+
+/-- every reading is listed -/
+theorem mem_readings (r : Reading) : r ∈ readings := by
+  rcases r with ⟨a, b, c⟩
+  cases a <;> cases b <;> cases c <;> decide
+
+theorem canonRes_ret {x : DT.Res} {b : Bool} (h : canonRes x = .ret b) : x = .ret b := by
+  cases x <;> simp [canonRes] at h ⊢
+  exact h
+
 end PEval.FilterTable
